@@ -224,29 +224,33 @@ def _repo_checks(L, fails, subset=None, notenc=None):
                 return np.array(x, dtype=float)
             sa, sk = build(As, L)
             ra, rk = build(Ar, R)
-            got = getattr(getattr(L, mod), fn)(*sa, **sk)
-            want = getattr(getattr(R, mod), fn)(*ra, **rk)
-            n += 1
-            if not _same(got, want, tol=1e-7):
-                fails.append('%s.%s: shim %r vs real %r' % (mod, fn, _tofloat(got), want))
+        except Exception as e:
+            fails.append('%s.%s: cannot build the arguments: %r' % (mod, fn, e))
+            continue
+        # both sides are executed separately: an exception is compared by type, a value by value
+        try:
+            want, wexc = getattr(getattr(R, mod), fn)(*ra, **rk), None
+        except Exception as e2:
+            want, wexc = None, type(e2).__name__
+        try:
+            got, gexc = getattr(getattr(L, mod), fn)(*sa, **sk), None
         except core.NotEncodable as e:
             # a construct the shim does not model: paths that reach it are reported as NOT-ENCODABLE by the driver (inconclusive, not an error)
             if notenc is not None:
                 notenc.append('%s.%s: %s' % (mod, fn, e))
             else:
                 fails.append('%s.%s aborted in the shim: %r' % (mod, fn, e))
+            continue
         except core.PathAbort as e:
             fails.append('%s.%s aborted in the shim: %r' % (mod, fn, e))
+            continue
         except Exception as e:
-            # the same exception type from both sides is agreement (pinned-tree defects)
-            try:
-                ra, rk = build(lambda x: np.array(x, dtype=float), R)
-                getattr(getattr(R, mod), fn)(*ra, **rk)
-                fails.append('%s.%s raised only in the shim: %s: %s' % (mod, fn, type(e).__name__, e))
-            except Exception as e2:
-                n += 1
-                if type(e2).__name__ != type(e).__name__:
-                    fails.append('%s.%s: shim raised %s, real raised %s' % (mod, fn, type(e).__name__, type(e2).__name__))
+            got, gexc = None, type(e).__name__
+        n += 1
+        if gexc != wexc:
+            fails.append('%s.%s: shim %s, real package %s' % (mod, fn, 'raised ' + gexc if gexc else 'returned a value', 'raised ' + wexc if wexc else 'returned a value'))
+        elif gexc is None and not _same(got, want, tol=1e-7):
+            fails.append('%s.%s: shim %r vs real %r' % (mod, fn, _tofloat(got), want))
     return n
 
 
